@@ -13,12 +13,15 @@ package main
 
 import (
 	"bytes"
+	"encoding/hex"
 	"encoding/json"
 	"errors"
 	"flag"
 	"fmt"
 	"os"
+	"regexp"
 	"sort"
+	"strconv"
 	"strings"
 	"sync"
 	"time"
@@ -43,6 +46,8 @@ type recConn struct {
 	inCh    chan *nats.Msg
 	events  []pubMsg
 	replies map[string]chan []byte
+	// markReplies: get responses leave a marker in events (wire order of response vs. events)
+	markReplies bool
 	nInbox  int
 }
 
@@ -50,6 +55,10 @@ func (c *recConn) Publish(subj string, payload []byte) error {
 	c.mu.Lock()
 	defer c.mu.Unlock()
 	if ch, ok := c.replies[subj]; ok {
+		if c.markReplies {
+			// keep the position of the response in the wire order
+			c.events = append(c.events, pubMsg{replyMarker, nil})
+		}
 		ch <- append([]byte(nil), payload...)
 		return nil
 	}
@@ -80,7 +89,13 @@ func (c *recConn) take() []pubMsg {
 
 var errHang = errors.New("no get response within 10 s")
 
+const replyMarker = "<get-response>"
+
 func (c *recConn) get(rid string) ([]byte, error) {
+	return c.await(c.getAsync(rid))
+}
+
+func (c *recConn) getAsync(rid string) (string, chan []byte) {
 	c.mu.Lock()
 	c.nInbox++
 	inbox := fmt.Sprintf("_INBOX.h.%d", c.nInbox)
@@ -89,6 +104,10 @@ func (c *recConn) get(rid string) ([]byte, error) {
 	in := c.inCh
 	c.mu.Unlock()
 	in <- &nats.Msg{Subject: "get." + rid, Reply: inbox, Data: nil}
+	return inbox, ch
+}
+
+func (c *recConn) await(inbox string, ch chan []byte) ([]byte, error) {
 	var out []byte
 	var err error
 	select {
@@ -169,6 +188,13 @@ func (e el) goValue() interface{} {
 		return json.RawMessage(e.T)
 	case "W", "D":
 		return res.DataValue[json.RawMessage]{Data: json.RawMessage(e.T)}
+	// "S": a Go string given by the hex of its bytes (control bytes, DEL, invalid UTF-8, astral runes ...)
+	case "S":
+		b, err := hex.DecodeString(e.T)
+		if err != nil {
+			panic(err)
+		}
+		return string(b)
 	// "J": any RES value written as raw JSON (T verbatim), e.g. a reference spelling out "soft":false
 	case "J":
 		return json.RawMessage(e.T)
@@ -200,6 +226,13 @@ func (d *valDesc) goValue(coll bool) interface{} {
 			return []interface{}{1, make(chan int)}
 		}
 		return map[string]interface{}{"a": 1, "c": make(chan int)}
+	case 6: // a concrete Go type ([]string, []int, []float64, []res.Ref, map[string]string/int/res.Ref, a struct) when the elements allow it
+		if v, ok := d.typed(coll); ok {
+			return v
+		}
+		o := *d
+		o.Shape = 0
+		return o.goValue(coll)
 	case 5: // marshals, but holds something that is no RES value (a bare nested object / array)
 		if coll {
 			return []interface{}{1, []interface{}{2, 3}, map[string]interface{}{"x": 1}}
@@ -246,6 +279,160 @@ func (d *valDesc) goValue(coll bool) interface{} {
 	}
 	return v
 }
+
+// typedModel is the struct served for shape 6 models over the keys a, b, c, d.
+type typedModel struct {
+	A *int     `json:"a,omitempty"`
+	B *string  `json:"b,omitempty"`
+	C *res.Ref `json:"c,omitempty"`
+	D *float64 `json:"d,omitempty"`
+}
+
+var intRe = regexp.MustCompile(`^-?[0-9]{1,9}$`)
+
+func (e el) asString() (string, bool) {
+	switch e.K {
+	case "S":
+		return e.goValue().(string), true
+	case "p":
+		if strings.HasPrefix(e.T, `"`) {
+			return parseJSON(e.T).(string), true
+		}
+	}
+	return "", false
+}
+func (e el) asInt() (int, bool) {
+	if e.K == "p" && intRe.MatchString(e.T) {
+		n, _ := strconv.Atoi(e.T)
+		return n, true
+	}
+	return 0, false
+}
+func (e el) asFloat() (float64, bool) {
+	if e.K == "p" {
+		if f, ok := parseJSON(e.T).(float64); ok {
+			return f, true
+		}
+	}
+	return 0, false
+}
+
+// typed builds the value with a concrete Go type, if all elements are of one fitting kind.
+func (d *valDesc) typed(coll bool) (interface{}, bool) {
+	all := func(f func(e el) bool) bool {
+		for _, e := range d.Els {
+			if !f(e) {
+				return false
+			}
+		}
+		return true
+	}
+	isS := func(e el) bool { _, ok := e.asString(); return ok }
+	isI := func(e el) bool { _, ok := e.asInt(); return ok }
+	isF := func(e el) bool { _, ok := e.asFloat(); return ok }
+	isR := func(e el) bool { return e.K == "r" }
+	if coll {
+		switch {
+		case all(isS):
+			l := make([]string, len(d.Els))
+			for i, e := range d.Els {
+				l[i], _ = e.asString()
+			}
+			return l, true
+		case all(isI):
+			l := make([]int, len(d.Els))
+			for i, e := range d.Els {
+				l[i], _ = e.asInt()
+			}
+			return l, true
+		case all(isF):
+			l := make([]float64, len(d.Els))
+			for i, e := range d.Els {
+				l[i], _ = e.asFloat()
+			}
+			return l, true
+		case all(isR):
+			l := make([]res.Ref, len(d.Els))
+			for i, e := range d.Els {
+				l[i] = res.Ref(e.T)
+			}
+			return l, true
+		}
+		return nil, false
+	}
+	// struct over the keys a (int), b (string), c (reference), d (number)
+	fits := len(d.Els) > 0
+	for i, e := range d.Els {
+		switch d.Keys[i] {
+		case "a":
+			fits = fits && isI(e)
+		case "b":
+			fits = fits && isS(e)
+		case "c":
+			fits = fits && isR(e)
+		case "d":
+			fits = fits && isF(e)
+		default:
+			fits = false
+		}
+	}
+	if fits {
+		var m typedModel
+		for i, e := range d.Els {
+			switch d.Keys[i] {
+			case "a":
+				n, _ := e.asInt()
+				m.A = &n
+			case "b":
+				x, _ := e.asString()
+				m.B = &x
+			case "c":
+				r := res.Ref(e.T)
+				m.C = &r
+			case "d":
+				f, _ := e.asFloat()
+				m.D = &f
+			}
+		}
+		return m, true
+	}
+	switch {
+	case all(isS):
+		m := make(map[string]string, len(d.Els))
+		for i, e := range d.Els {
+			m[d.Keys[i]], _ = e.asString()
+		}
+		return m, true
+	case all(isI):
+		m := make(map[string]int, len(d.Els))
+		for i, e := range d.Els {
+			m[d.Keys[i]], _ = e.asInt()
+		}
+		return m, true
+	case all(isR):
+		m := make(map[string]res.Ref, len(d.Els))
+		for i, e := range d.Els {
+			m[d.Keys[i]] = res.Ref(e.T)
+		}
+		return m, true
+	}
+	return nil, false
+}
+
+// specialStrings: every control byte, DEL, invalid UTF-8, surrogate bytes, astral / non-printable runes,
+// line separators, quotes and backslashes - as el values of kind "S".
+var specialStrings = func() []el {
+	var out []el
+	add := func(s string) { out = append(out, el{"S", hex.EncodeToString([]byte(s))}) }
+	for b := 0; b < 0x20; b++ {
+		add("c" + string([]byte{byte(b)}))
+	}
+	for _, s := range []string{"\x7f", "del\x7f.", "\xff", "a\xc3(", "\xed\xa0\x80", "\U0001F600", "\U000E0001", "\U0010FFFF",
+		"\u2028", "\u2029", "\ufffd", "\u0085", "\u00ad", "\"\\/", "\x1b[0m", "\a\v\x01", ""} {
+		add(s)
+	}
+	return out
+}()
 
 // ---------------------------------------------------------------- JSON -> Coq terms
 
@@ -572,13 +759,63 @@ func (h *hcfg) coqTrans() int { return []int{0, 1, 1, 2, 3}[h.trans] }
 
 const nCfg = 8
 
+// gate holds a get at one point (inside Transform, or inside the MarshalJSON of the served value) until released.
+// One-shot: it fires for the armed id once.
+type gate struct {
+	mu      sync.Mutex
+	id      string
+	armed   bool
+	entered chan struct{}
+	release chan struct{}
+}
+
+func (g *gate) arm(id string) {
+	g.mu.Lock()
+	g.id, g.armed = id, true
+	g.entered, g.release = make(chan struct{}), make(chan struct{})
+	g.mu.Unlock()
+}
+func (g *gate) hit(id string) {
+	g.mu.Lock()
+	if !g.armed || g.id != id {
+		g.mu.Unlock()
+		return
+	}
+	g.armed = false
+	e, r := g.entered, g.release
+	g.mu.Unlock()
+	close(e)
+	<-r
+}
+
+// gatedVal is a stored value whose MarshalJSON passes the gate (a "slow" marshaller).
+type gatedVal struct {
+	g     *gate
+	id    string
+	inner interface{}
+}
+
+func (v gatedVal) MarshalJSON() ([]byte, error) {
+	v.g.hit(v.id)
+	return json.Marshal(v.inner)
+}
+
 type world struct {
+	gate       gate
 	s          *res.Service
 	c          *recConn
 	cfgs       []*hcfg
 	createData []string
 	impl       []ImplViolation
 	log        *quietLogger
+}
+
+// gated passes the gate before transforming (the harness' own calls of h.tf are not gated).
+func (w *world) gated(tf func(id string, v interface{}) (interface{}, error)) func(id string, v interface{}) (interface{}, error) {
+	return func(id string, v interface{}) (interface{}, error) {
+		w.gate.hit(id)
+		return tf(id, v)
+	}
 }
 
 func newWorld() *world {
@@ -603,10 +840,10 @@ func newWorld() *world {
 			switch h.trans {
 			case 1:
 				h.tf = transformFn
-				tr = store.IDTransformer("id", h.tf)
+				tr = store.IDTransformer("id", w.gated(h.tf))
 			case 2:
 				h.tf = strictTransformFn
-				tr = store.IDTransformer("id", h.tf)
+				tr = store.IDTransformer("id", w.gated(h.tf))
 			case 3:
 				h.tf = func(id string, v interface{}) (interface{}, error) { return v, nil }
 				tr = store.TransformFuncs(
@@ -624,7 +861,7 @@ func newWorld() *world {
 					}, nil)
 			case 4:
 				h.tf = transformFn
-				tr = store.TransformFuncs(nil, nil, transformFn)
+				tr = store.TransformFuncs(nil, nil, w.gated(transformFn))
 			}
 			// half of the handlers are built through the option API, half as struct literals
 			var sh store.Handler
@@ -766,10 +1003,10 @@ func safely(f func()) (p interface{}) {
 	return nil
 }
 
-// noRawShape replaces the json.RawMessage shape by natural Go values.
+// noRawShape replaces the json.RawMessage shape and the concrete Go types by natural Go values.
 func noRawShape(d *caseDesc) {
 	fix := func(v *valDesc) {
-		if v != nil && v.Shape == 2 {
+		if v != nil && (v.Shape == 2 || v.Shape == 6) {
 			v.Shape = 0
 		}
 	}
@@ -994,6 +1231,9 @@ func randEl(r *Rng, small bool) el {
 	if r.Chance(18) {
 		return randConfusable(r)
 	}
+	if r.Chance(5) {
+		return specialStrings[r.Intn(len(specialStrings))]
+	}
 	if small {
 		return elemPool[r.Intn(5)]
 	}
@@ -1006,7 +1246,7 @@ func randEl(r *Rng, small bool) el {
 func randVal(r *Rng, coll bool, maxLen int) *valDesc {
 	n := r.Intn(maxLen + 1)
 	small := r.Chance(50)
-	d := &valDesc{Shape: []int{0, 0, 0, 1, 2}[r.Intn(5)]}
+	d := &valDesc{Shape: []int{0, 0, 0, 1, 2, 6, 6}[r.Intn(7)]}
 	if coll {
 		for i := 0; i < n; i++ {
 			d.Els = append(d.Els, randEl(r, small))
@@ -1050,7 +1290,7 @@ func mutate(r *Rng, prev *valDesc, coll bool, maxLen int) *valDesc {
 		return randVal(r, coll, maxLen)
 	}
 	d := cloneVal(prev)
-	d.Shape = []int{0, 0, 0, 1, 2}[r.Intn(5)]
+	d.Shape = []int{0, 0, 0, 1, 2, 6, 6}[r.Intn(7)]
 	if r.Chance(10) {
 		return d // same content (possibly another Go shape)
 	}
@@ -1561,6 +1801,140 @@ func runReg(d regDesc, dist map[string]int) Case {
 	return c
 }
 
+// runConc: a get is held (inside Transform, or inside the served value's MarshalJSON) while another
+// goroutine performs a write transaction on the same id.  The wire order of the get response and the
+// events is recorded; the client applies only the events that follow its get response and must then hold
+// what a fresh get serves.  On the unchanged code the read transaction is held until the response is out,
+// so the writer blocks and every event follows the response.  d.Ops has exactly one op.
+func (w *world) runConc(d caseDesc, dist map[string]int) Case {
+	h := w.cfgByName(d.Cfg)
+	id, rid := h.id(d.Key), h.rid(d.Key)
+	c := Case{Desc: d, Tags: []string{d.Cfg, "concurrent"}}
+	tOf := func(v interface{}) string {
+		if h.trans == 0 {
+			return "None"
+		}
+		tv, err := h.tf(id, v)
+		if err != nil {
+			return "None"
+		}
+		return optRvOfGo(tv)
+	}
+	wrapv := func(v interface{}) interface{} {
+		if h.trans == 0 {
+			return gatedVal{&w.gate, id, v}
+		}
+		return v
+	}
+	gv0 := d.Init.goValue(h.coll)
+	h.st.Add(id, wrapv(gv0))
+	initT, tinitT := optRvOrBad(gv0), tOf(gv0)
+	w.c.take()
+	w.log.takeErrs()
+	w.createData = nil
+	w.c.mu.Lock()
+	w.c.markReplies = true
+	w.c.mu.Unlock()
+	w.gate.arm(id)
+	inbox, ch := w.c.getAsync(rid)
+	hang := func(what string) {
+		w.impl = append(w.impl, ImplViolation{What: what, Desc: d, Tags: c.Tags})
+	}
+	select {
+	case <-w.gate.entered:
+	case <-time.After(10 * time.Second):
+		hang("gated get never reached the gate")
+	}
+	o := d.Ops[0]
+	var gv interface{}
+	valT, tvalT, opn := "None", "None", 2
+	if o.Op != "delete" {
+		gv = o.Val.goValue(h.coll)
+		valT, tvalT, opn = optRvOrBad(gv), tOf(gv), 1
+	}
+	var werr error
+	wdone := make(chan struct{})
+	go func() {
+		defer close(wdone)
+		txn := h.st.Write(id)
+		defer txn.Close()
+		if o.Op == "delete" {
+			werr = txn.Delete()
+		} else {
+			werr = txn.Update(wrapv(gv))
+		}
+	}()
+	early := false
+	select {
+	case <-wdone:
+		early = true // the write went through while the get was still being answered
+	case <-time.After(40 * time.Millisecond):
+	}
+	close(w.gate.release)
+	resp, gerr := w.c.await(inbox, ch)
+	select {
+	case <-wdone:
+	case <-time.After(10 * time.Second):
+		hang("write transaction did not finish after the get response")
+	}
+	w.c.mu.Lock()
+	w.c.markReplies = false
+	w.c.mu.Unlock()
+	msgs := w.c.take()
+	w.log.takeErrs()
+	g0 := "IGBad"
+	if gerr == nil {
+		g0, _ = igTerm(resp)
+	} else {
+		hang("get request not answered")
+	}
+	// only what follows the response reaches the client
+	after, before := []pubMsg{}, 0
+	seen := false
+	for _, m := range msgs {
+		switch {
+		case m.subj == replyMarker:
+			seen = true
+		case seen:
+			after = append(after, m)
+		default:
+			before++
+		}
+	}
+	kinds := map[string]int{}
+	cd := w.createData
+	evs := make([]string, len(after))
+	for i, m := range after {
+		evs[i] = evTerm(m, &cd, kinds)
+	}
+	if early {
+		dist["conc_write_overtook_get"]++
+	}
+	if before > 0 {
+		dist["conc_events_before_response"] += before
+		c.Tags = append(c.Tags, "events-before-response")
+	}
+	gf := "IGBad"
+	if r2, err := w.c.get(rid); err == nil {
+		gf, _ = igTerm(r2)
+	} else {
+		hang("get request not answered")
+	}
+	h.st.Lock()
+	delete(h.st.Resources, id)
+	h.st.Unlock()
+	defT := "None"
+	if h.def {
+		defT = optRvOfGo(h.defGo)
+	}
+	step := fmt.Sprintf("HS %d %s %s %s %s %s", opn, valT, tvalT, Bool(werr == nil), List(evs), gf)
+	c.Term = fmt.Sprintf("CH (HC %s %d 0 %s %s %s %s %s %s\n [%s])", Bool(h.coll), h.coqTrans(), defT, B(h.prefix()), B(id),
+		initT, tinitT, g0, step)
+	c.Nontrivial = len(msgs) > 1
+	dist["case_concurrent"]++
+	return c
+}
+
 // Without a Default, getResource answers a wrapped not-found with r.Error(err), and res.ToError
 // only recognises a *res.Error by type assertion: such a get is answered system.internalError
 // (not system.notFound).  The wrapped-store variant is therefore generated for handlers with a
@@ -1615,7 +1989,13 @@ func main() {
 			panic(err)
 		}
 	}
-	if o.Replay != "" && probe.Kind == "reg" {
+	if o.Replay != "" && probe.Kind == "concurrent" {
+		var d caseDesc
+		if err := LoadReplay(o.Replay, &d); err != nil {
+			panic(err)
+		}
+		cases = append(cases, w.runConc(d, dist))
+	} else if o.Replay != "" && probe.Kind == "reg" {
 		var d regDesc
 		if err := LoadReplay(o.Replay, &d); err != nil {
 			panic(err)
@@ -1782,6 +2162,55 @@ func main() {
 				add(caseDesc{Cfg: h.name, Kind: "bad_value", Init: w4, Ops: []opDesc{{"update", v1}, {"update", w5}, {"delete", nil}}})
 			}
 		}
+		// (c5) concrete Go types: []string with every special string added / moved one at a time, and
+		//      []int, []float64, []res.Ref, map[string]string, map[string]int, a struct
+		for _, cfg := range []string{"c0", "c2", "c6"} {
+			for start := 0; start < len(specialStrings); start += 9 {
+				cur := []el{{"p", `"a"`}, {"p", `"b"`}}
+				d := caseDesc{Cfg: cfg, Kind: "typed_strings", Init: &valDesc{Els: cur, Shape: 6}}
+				for i := start; i < start+9 && i < len(specialStrings); i++ {
+					pos := (i * 7) % (len(cur) + 1)
+					cur = append(append(append([]el{}, cur[:pos]...), specialStrings[i]), cur[pos:]...)
+					d.Ops = append(d.Ops, opDesc{"update", &valDesc{Els: cur, Shape: 6}})
+					if i%3 == 2 { // move the first element to the end
+						cur = append(append([]el{}, cur[1:]...), cur[0])
+						d.Ops = append(d.Ops, opDesc{"update", &valDesc{Els: cur, Shape: 6}})
+					}
+				}
+				d.Ops = append(d.Ops, opDesc{"delete", nil}, opDesc{"create", &valDesc{Els: cur[:len(cur)/2], Shape: 6}})
+				add(d)
+			}
+		}
+		for _, cfg := range []string{"0", "2", "6"} {
+			tc := func(els ...el) *valDesc { return &valDesc{Els: els, Shape: 6} }
+			tm := func(keys []string, els ...el) *valDesc { return &valDesc{Keys: keys, Els: els, Shape: 6} }
+			sp := specialStrings
+			add(caseDesc{Cfg: "c" + cfg, Kind: "typed_misc", Init: tc(el{"p", "1"}, el{"p", "2"}, el{"p", "3"}), Ops: []opDesc{
+				{"update", tc(el{"p", "3"}, el{"p", "1"}, el{"p", "-7"})}, {"update", tc(el{"p", "1.5"}, el{"p", "3"}, el{"p", "1e21"})},
+				{"update", tc(el{"r", "test.x"}, el{"r", "test.y"})}, {"update", tc(el{"r", "test.y"}, el{"r", "test.z"}, el{"r", "test.x"})},
+				{"update", tc(sp[27], sp[1])}, {"update", tc()}, {"delete", nil}, {"create", tc(sp[0x1b], el{"p", `"a"`}, sp[33])}}})
+			add(caseDesc{Cfg: "m" + cfg, Kind: "typed_misc", Init: tm([]string{"x", "y"}, sp[7], el{"p", `"a"`}), Ops: []opDesc{
+				{"update", tm([]string{"x", "y", "z"}, sp[7], sp[0x1b], sp[34])}, {"update", tm([]string{"x", "z"}, el{"p", "1"}, el{"p", "2"})},
+				{"update", tm([]string{"a", "b", "c", "d"}, el{"p", "5"}, sp[11], el{"r", "test.x"}, el{"p", "2.5"})},
+				{"update", tm([]string{"a", "b"}, el{"p", "6"}, sp[36])}, {"update", tm([]string{"q"}, el{"r", "test.y"})},
+				{"delete", nil}, {"create", tm([]string{"b"}, sp[39])}}})
+		}
+		// (c6) a get held inside Transform / MarshalJSON while another goroutine writes the same id
+		for _, h := range w.cfgs {
+			if h.trans == 3 {
+				continue
+			}
+			v1 := &valDesc{Keys: []string{"a", "b"}, Els: []el{{"p", "1"}, {"p", "2"}}}
+			v2 := &valDesc{Keys: []string{"b", "c"}, Els: []el{{"p", "3"}, {"r", "test.x"}}}
+			if h.coll {
+				v1 = &valDesc{Els: []el{{"p", "1"}, {"p", "2"}}}
+				v2 = &valDesc{Els: []el{{"p", "2"}, {"r", "test.x"}, {"p", "1"}}}
+			}
+			nkey++
+			cases = append(cases, w.runConc(caseDesc{Cfg: h.name, Key: fmt.Sprintf("g%d", nkey), Kind: "concurrent", Init: v1, Ops: []opDesc{{"update", v2}}}, dist))
+			nkey++
+			cases = append(cases, w.runConc(caseDesc{Cfg: h.name, Key: fmt.Sprintf("g%d", nkey), Kind: "concurrent", Init: v2, Ops: []opDesc{{"delete", nil}}}, dist))
+		}
 		// (c4) registration: every combination of Store set / Default kind / Type, both ways of building the handler
 		for _, api := range []bool{false, true} {
 			for _, st := range []bool{true, false} {
@@ -1846,6 +2275,8 @@ func main() {
 			"TransformFuncs hiding some ids with nil Transform + Default, TransformFuncs(nil,nil,f)), half built with the With* option API; "+
 			"ALL ordered pairs of collections of length <= 3 (quick) / <= 4 (thorough) over {1,2,3} as store content a then Update(b); "+
 			"all pairs of models over 2 keys x {absent,1,2}; corner histories (create/delete/default/transform error; create-update-delete-recreate of the entry of a default-backed resource) per configuration; "+
+			"served values of concrete Go types ([]string, []int, []float64, []res.Ref, map[string]string/int/res.Ref, struct) incl. strings with every control byte, DEL, invalid UTF-8, astral and non-printable runes, added/moved one at a time; "+
+			"concurrent histories: a get held inside Transform / MarshalJSON while another goroutine writes the same id - the client applies only events that follow its get response on the wire; "+
 			"coverage families: read-error store, Transform failing on both sides, ids hidden by RIDToID/IDToRID = \"\", values outside the domain (wrong JSON kind, unmarshallable, no RES values), "+
 			"80 registration cases (Store set?, Default none/unmarshallable/object/array/other, Type unset/model/collection/invalid, struct literal vs With* API) with the documented panics as outcomes; "+
 			"store variant 'wrapped' (missing value / duplicate reported with errors that wrap store.ErrNotFound / store.ErrDuplicate) on handlers with a Default for 35% of the random and all default-backed histories; "+
